@@ -12,7 +12,7 @@ AFTER_RES2 = """//@after "let res = &mut res.to_mut();"
         let ghost fut = final(res.data.data)@;
 """
 TOP = """//@top
-        let ghost G0 = gowner_limbs(old(res)); let ghost g_n = old(res).gm_n(); let ghost g_cols = old(res).gm_cols(); let ghost g_size = old(res).gm_size();
+        let ghost G0 = gowner_limbs(old(res)); let ghost g_n = old(res).gm_n(); let ghost g_cols = old(res).gm_cols(); let ghost g_size = old(res).gm_size(); let ghost rb = old(res).gm_base2k().0;
 """
 def rinv(cs, inplace):
     s = """res.data.wf(), final(res.data.data)@ == fut, res.data.n == g_n, res.data.cols == g_cols, res.data.size == g_size, g_n == self.sn(), 1 <= g_cols <= u32::MAX,
@@ -22,7 +22,7 @@ def rinv(cs, inplace):
         s += """
                 forall|i2: int, jj: int| i <= i2 < g_cols && 0 <= jj ==> #[trigger] res.data.limb(i2, jj) == G0(i2, jj),"""
     return s
-def lend(cs, inplace):
+def lend(cs, inplace, hint=''):
     s = """                proof {
                     let Q = owner_limbs(&res.data);
                     assert forall|i2: int, jj: int| 0 <= i2 < g_cols && jj >= g_size implies #[trigger] res.data.limb(i2, jj) == G0(i2, jj) by { assert(Q(i2, jj) == P(i2, jj)); }
@@ -31,16 +31,16 @@ def lend(cs, inplace):
         s += """                    assert forall|i2: int, jj: int| i + 1 <= i2 < g_cols && 0 <= jj implies #[trigger] res.data.limb(i2, jj) == G0(i2, jj) by { assert(Q(i2, jj) == P(i2, jj)); }
 """
     s += """                    assert forall|i2: int, jj: int| 0 <= i2 < i + 1 && 0 <= jj < g_size implies %s by {
-                        if i2 < i { assert(Q(i2, jj) == P(i2, jj)); } else { assert(Q(i2, jj) == res.data.smut_limb(i as int, jj)); %s }
+                        if i2 < i { assert(Q(i2, jj) == P(i2, jj)); } else { assert(Q(i2, jj) == res.data.smut_limb(i as int, jj)); %s %s }
                     }
                 }
-""" % (cs('#[trigger] res.data.limb(i2, jj)', 'i2', 'jj'), 'assert(P(i2, jj) == G0(i2, jj));' if inplace else '')
+""" % (cs('#[trigger] res.data.limb(i2, jj)', 'i2', 'jj'), 'assert(P(i2, jj) == G0(i2, jj));' if inplace else '', hint)
     return s
-def loops(cs, invs, inplace):
+def loops(cs, invs, inplace, hint=''):
     out = ''
     for k, inv in enumerate(invs, 1):
         out += '//@loop %d iter=it\n            invariant %s\n                %s\n' % (k, inv, rinv(cs, inplace))
-        out += '//@loop_start %d\n                let ghost P = owner_limbs(&res.data);\n//@loop_end %d\n%s' % (k, k, lend(cs, inplace))
+        out += '//@loop_start %d\n                let ghost P = owner_limbs(&res.data);\n//@loop_end %d\n%s' % (k, k, lend(cs, inplace, hint))
     out += '//@expect_loops %d\n' % len(invs)
     return out
 def end(cs):
@@ -64,10 +64,10 @@ def ens_cols(cs_final):
     return """            forall|i: int, jj: int| 0 <= i < old(res).gm_cols() && 0 <= jj < old(res).gm_size() ==>
                 %s,""" % cs_final
 
-def fn(trait_hdr, name, requires, ens, ghosts, cs, invs, inplace, after=AFTER_RES, path='poulpy-core/src/api/operations.rs'):
+def fn(trait_hdr, name, requires, ens, ghosts, cs, invs, inplace, after=AFTER_RES, path='poulpy-core/src/api/operations.rs', hint=''):
     """one extracted wrapper"""
     s = '//@extract %s::%s impl="%s"\n//@spec\n        requires %s,\n%s\n        ensures %s,\n%s\n' % (path, name, trait_hdr, REQ_RES, requires, ENS_RES, ens_cols(ens))
-    s += TOP + ghosts + after + loops(cs, invs, inplace) + end(cs)
+    s += TOP + ghosts + after + loops(cs, invs, inplace, hint) + end(cs)
     return s
 
 U = HEAD
@@ -202,6 +202,58 @@ def rotate_family(path, rot_hdr, rot_decl, mul_hdr, mul_decl):
     return U
 U += rotate_family('poulpy-core/src/api/operations.rs', 'pub trait GLWERotate<BE: Backend>', 'GLWERotate<BE: Backend>', 'pub trait GLWEMulXpMinusOne<BE: Backend>', 'GLWEMulXpMinusOne<BE: Backend>')
 U += rotate_family('poulpy-core/src/operations/glwe.rs', 'pub trait GLWERotateDefault<BE: Backend>', 'GLWERotateDefault<BE: Backend>', 'pub trait GLWEMulXpMinusOneDefault<BE: Backend>', 'GLWEMulXpMinusOneDefault<BE: Backend>')
+# ------------------------------------------------------------------ GLWEShift / GLWENormalize (HAL value contracts abstract: column delegation, rank rule, frame, scratch)
+OCOL_HINT = 'assert(ocol(P, i as int, g_size as int) =~= ocol(G0, i as int, g_size as int));'
+def shift_family(path, sh_hdr, sh_decl, nz_hdr, nz_decl, tmp_suffix):
+    U = '\npub trait %s: ModuleN + VecZnxRshAssign<BE> + VecZnxLshAddInto<BE> + VecZnxLshSub<BE> + VecZnxRshTmpBytes + VecZnxLshTmpBytes + VecZnxLshAssign<BE> + VecZnxLsh<BE> + VecZnxZero {\n' % sh_decl
+    U += """//@extract %s::glwe_shift_tmp_bytes impl="%s" ret=r
+//@spec
+        requires self.sn() <= 0x1000_0000 ensures r == 2 * self.sn() * 8
+//@end
+""" % (path, sh_hdr)
+    SC = 'self.sn() <= 0x1000_0000, old(scratch).avail >= 2 * self.sn() * 8, 1 <= old(res).gm_base2k().0 <= 62,   // C12: exactly glwe_shift_tmp_bytes() suffices'
+    SI = 'g_n <= 0x1000_0000, scratch.avail >= 2 * g_n * 8, 1 <= base2k <= 62,'
+    cs = lambda L, i, j: '%s == hal_rsh_assign(base2k as int, k as int, ocol(G0, %s, g_size as int), %s)' % (L, i, j)
+    U += fn(sh_hdr, 'glwe_rsh', '            ' + SC,
+        'final(res).gm_limb(i, jj) == hal_rsh_assign(old(res).gm_base2k().0 as int, k as int, ocol(gowner_limbs(old(res)), i, old(res).gm_size() as int), jj)',
+        '', lambda L, i, j: '%s == hal_rsh_assign(base2k as int, k as int, ocol(G0, %s, g_size as int), %s)' % (L.replace('#[trigger] ', '#[trigger] '), i, j),
+        ['it.iter.end == g_cols, base2k == rb, ' + SI], True, after=AFTER_RES2, path=path, hint=OCOL_HINT)
+    U += '\n' + fn(sh_hdr, 'glwe_lsh_assign', '            ' + SC,
+        'final(res).gm_limb(i, jj) == hal_lsh_assign(old(res).gm_base2k().0 as int, k as int, ocol(gowner_limbs(old(res)), i, old(res).gm_size() as int), jj)',
+        '', lambda L, i, j: '%s == hal_lsh_assign(base2k as int, k as int, ocol(G0, %s, g_size as int), %s)' % (L, i, j),
+        ['it.iter.end == g_cols, base2k == rb, ' + SI], True, after=AFTER_RES2, path=path, hint=OCOL_HINT)
+    AREQ = '            %s, %s, old(res).gm_base2k() == a.gref().base2k, old(res).gm_cols() >= a.gref().data.cols,' % (SC.split('   //')[0].rstrip().rstrip(','), A_OK)
+    U += '\n' + fn(sh_hdr, 'glwe_lsh', AREQ,
+        'final(res).gm_limb(i, jj) == (if i < a.gref().data.cols { hal_lsh(old(res).gm_base2k().0 as int, k as int, acol(a.gref().data, i), old(res).gm_size() as int, jj) } else { zeros(old(res).gm_n() as nat) })',
+        '        let ghost A0 = a.gref();\n', lambda L, i, j: '%s == (if %s < A0.data.cols { hal_lsh(base2k as int, k as int, acol(A0.data, %s), g_size as int, %s) } else { zeros(g_n as nat) })' % (L, i, i, j),
+        ['it.iter.end == a_cols, a_cols == A0.data.cols, a_cols <= g_cols, base2k == rb, %s %s' % (AINV, SI),
+         'it.iter.end == res.data.cols, a_cols <= i, a_cols == A0.data.cols, a_cols <= g_cols, base2k == rb, %s %s' % (AINV, SI)], False, after=AFTER_RES2, path=path,
+        hint='if i >= a_cols { assert(res.data.smut_limb(i as int, jj) =~= zeros(g_n as nat)); }')
+    for nm, sub in (('glwe_lsh_add', 'false'), ('glwe_lsh_sub', 'true')):
+        U += '\n' + fn(sh_hdr, nm, AREQ,
+            'final(res).gm_limb(i, jj) == (if i < a.gref().data.cols { hal_lsh_acc(%s, old(res).gm_base2k().0 as int, k as int, ocol(gowner_limbs(old(res)), i, old(res).gm_size() as int), acol(a.gref().data, i), jj) } else { old(res).gm_limb(i, jj) })' % sub,
+            '        let ghost A0 = a.gref();\n', lambda L, i, j, sub=sub: '%s == (if %s < A0.data.cols { hal_lsh_acc(%s, base2k as int, k as int, ocol(G0, %s, g_size as int), acol(A0.data, %s), %s) } else { G0(%s, %s) })' % (L, i, sub, i, i, j, i, j),
+            ['it.iter.end == A0.data.cols, A0.data.cols <= g_cols, base2k == rb, %s %s' % (AINV, SI)], True, after=AFTER_RES2, path=path, hint=OCOL_HINT)
+    U += '}\n'
+    U += '\npub trait %s: ModuleN + VecZnxNormalize<BE> + VecZnxNormalizeAssign<BE> + VecZnxNormalizeTmpBytes {\n' % nz_decl
+    U += """//@extract %s::glwe_normalize_tmp_bytes impl="%s" ret=r
+//@spec
+        requires self.sn() <= 0x1000_0000 ensures r == 3 * self.sn() * 8
+//@end
+""" % (path, nz_hdr)
+    NC = 'self.sn() <= 0x1000_0000, old(scratch).avail >= 3 * self.sn() * 8, 1 <= old(res).gm_base2k().0 <= 62'
+    U += fn(nz_hdr, 'glwe_normalize', '            %s, %s, old(res).gm_cols() == a.gref().data.cols, 1 <= a.gref().base2k.0 <= 62,' % (NC, A_OK),
+        'final(res).gm_limb(i, jj) == hal_normalize(old(res).gm_base2k().0 as int, 0, a.gref().base2k.0 as int, acol(a.gref().data, i), old(res).gm_size() as int, jj)',
+        '        let ghost A0 = a.gref();\n', lambda L, i, j: '%s == hal_normalize(rb as int, 0, A0.base2k.0 as int, acol(A0.data, %s), g_size as int, %s)' % (L, i, j),
+        ['it.iter.end == g_cols, A0.data.cols == g_cols, res_base2k == rb, 1 <= rb <= 62, 1 <= A0.base2k.0 <= 62, g_n <= 0x1000_0000, scratch.avail >= 3 * g_n * 8, %s' % AINV], False, path=path)
+    U += '\n' + fn(nz_hdr, 'glwe_normalize_assign', '            %s,' % NC,
+        'final(res).gm_limb(i, jj) == hal_normalize_assign(old(res).gm_base2k().0 as int, ocol(gowner_limbs(old(res)), i, old(res).gm_size() as int), jj)',
+        '', lambda L, i, j: '%s == hal_normalize_assign(rb as int, ocol(G0, %s, g_size as int), %s)' % (L, i, j),
+        ['it.iter.end == g_cols, res.base2k.0 == rb, 1 <= rb <= 62, g_n <= 0x1000_0000, scratch.avail >= 3 * g_n * 8,'], True, path=path, hint=OCOL_HINT)
+    U += '}\n'
+    return U
+U += shift_family('poulpy-core/src/api/operations.rs', 'pub trait GLWEShift<BE: Backend>', 'GLWEShift<BE: Backend>', 'pub trait GLWENormalize<BE: Backend>', 'GLWENormalize<BE: Backend>', '')
+U += shift_family('poulpy-core/src/operations/glwe.rs', 'pub trait GLWEShiftDefault<BE: Backend>', 'GLWEShiftDefault<BE: Backend>', 'pub trait GLWENormalizeDefault<BE: Backend>', 'GLWENormalizeDefault<BE: Backend>', '')
 # ------------------------------------------------------------------ GLWECopy
 U += '\npub trait GLWECopy: ModuleN + VecZnxCopy + VecZnxZero {\n'
 cs = lambda L, i, j: 'glwe_copy_col_ok(%s, A0.data, %s, %s, g_n as int)' % (L, i, j)
